@@ -61,6 +61,11 @@ EXCLUSIONS = {
                                    'level, never nested deeper or inside a loop/switch; nothing follows a return '
                                    '[finding nested-return-escapes-outer-if (C03)]',
     'neg-const-to-unsigned-cast': 'a negative constant is never cast to an unsigned type [finding compare-casts-negative-const]',
+    'switch-nonconst': 'the controlling expression of a switch is never a constant [finding switch-constant-no-match]',
+    'narrow-unsigned-vs-signed': 'a narrow unsigned operand meeting a signed operand is widened with an explicit (int) cast '
+                                 '[finding operand-value-after-implicit-conversion]',
+    'early-return-var-retest': 'a variable tested by the condition of an early return is not read again later in the function '
+                               '[finding early-return-boundary-assumed (C03)]',
     'alias-self-read': 'the value stored through an alias pointer never reads the aliased variable [finding alias-ternary]',
 }
 
@@ -299,6 +304,27 @@ def _rx(w, n):
         w.w(')')
 
 
+def node_vars(n):
+    """names of the variables read by expression node n"""
+    out = set()
+    if n is None or isinstance(n, str):
+        return out
+    if n.k == 'var':
+        out.add(n.a)
+    elif n.k in ('idx', 'mem', 'pmem', 'deref'):
+        out.add(n.a)
+        if n.k == 'idx':
+            out |= node_vars(n.b)
+    elif n.k == 'call':
+        for x in n.b:
+            out |= node_vars(x)
+    else:
+        for x in (n.a, n.b, n.c):
+            if isinstance(x, N):
+                out |= node_vars(x)
+    return out
+
+
 def render_plain(n):
     w = Writer(False)
     rx(w, n)
@@ -321,6 +347,7 @@ class Gen:
         self.globals = []     # (name, type)
         self.feature_count = {}
         self.recent = []      # (var, type, constant) of recent var-vs-constant conditions
+        self.tainted = set()  # variables tested by the condition of an early return (calibrated profile)
 
     def feat(self, f):
         self.feature_count[f] = self.feature_count.get(f, 0) + 1
@@ -350,6 +377,15 @@ class Gen:
             t = promote(a.t)
         else:
             t = uac(a.t, b.t)
+        if self.cal and op not in LOGIC and op not in ('<<', '>>'):
+            # exclusion narrow-unsigned-vs-signed [finding operand-value-after-implicit-conversion]: a narrow unsigned
+            # operand that meets a signed one is widened explicitly (value-preserving), so that no implicit
+            # conversion between operand types of different signedness is left to cppcheck
+            if not is_signed(a.t) and bits(a.t) < 32 and is_signed(b.t) and not a.const:
+                a = self.mk_cast('int', a)
+            elif not is_signed(b.t) and bits(b.t) < 32 and is_signed(a.t) and not b.const:
+                b = self.mk_cast('int', b)
+            t = 'int' if (op in CMP) else uac(a.t, b.t)
         if self.cal and op in LOGIC:
             # exclusion logic-var-operand
             a, b = self.truth(a), self.truth(b)
@@ -481,7 +517,7 @@ class Gen:
         cands = [c for c in env.readable() if c[1] != avoid and c[3] != avoid]
         if self.cal:
             # exclusion alias-write-only: values are never read back through an alias pointer
-            cands = [c for c in cands if c[0] not in ('ptr', 'sptr')]
+            cands = [c for c in cands if c[0] not in ('ptr', 'sptr') and c[1] not in self.tainted]
         if cands and r.random() < 0.75:
             kind, name, extra, _tgt = r.choice(cands)
             if kind == 'scalar':
@@ -607,7 +643,7 @@ class Gen:
     def cond(self, env, depth=1, avoid=None):
         r = self.rng
         x = r.random()
-        scal = [v for v in env.scalar_vars() if v[0] != avoid]
+        scal = [v for v in env.scalar_vars() if v[0] != avoid and v[0] not in self.tainted]
         if self.bias == 'cond' and self.recent and r.random() < 0.45:
             # related condition: same variable, neighbouring constant, any operator
             name, _t0, cv = r.choice(self.recent[-6:])
@@ -651,9 +687,13 @@ class Gen:
     # ------------------------------------------------------------ statements
     def block(self, env, out, indent, nstmts, loopdepth, fn_ret, kind='other'):
         env = env.child()
+        returned = False
         for _ in range(nstmts):
-            if self.stmt(env, out, indent, loopdepth, fn_ret, kind) == 'returned' and self.cal:
-                break   # nothing is generated after a return (no dead code in the calibrated profile)
+            if self.stmt(env, out, indent, loopdepth, fn_ret, kind) == 'returned':
+                returned = True
+                if self.cal:
+                    break   # nothing is generated after a return (no dead code in the calibrated profile)
+        return returned
 
     def emit(self, out, indent, parts):
         """parts: list of str | N ; writes one line into both writers"""
@@ -736,12 +776,17 @@ class Gen:
             self.feat('if')
             c = self.cond(env)
             self.emit(out, indent, ['if (', c, ') {'])
-            self.block(env, out, indent + 1, r.randint(1, 3), loopdepth, fn_ret, 'if')
+            ret1 = self.block(env, out, indent + 1, r.randint(1, 3), loopdepth, fn_ret, 'if')
+            ret2 = False
             if r.random() < 0.45:
                 self.emit(out, indent, ['} else {'])
-                self.block(env, out, indent + 1, r.randint(1, 3), loopdepth, fn_ret, 'if')
+                ret2 = self.block(env, out, indent + 1, r.randint(1, 3), loopdepth, fn_ret, 'if')
                 self.feat('else')
             self.emit(out, indent, ['}'])
+            if (ret1 or ret2) and self.cal:
+                # exclusion early-return-var-retest [finding early-return-boundary-assumed (C03)]: a variable tested by
+                # the condition of an early return is not tested again later in the function
+                self.tainted.update(node_vars(c))
             return
         if x < 0.67 and depth_ok and loopdepth < 2:
             self.feat('for')
@@ -801,6 +846,13 @@ class Gen:
         if x < 0.75 and depth_ok:
             self.feat('switch')
             e = self.expr(env, 1)
+            if self.cal and e.const:
+                # exclusion switch-nonconst [finding switch-constant-no-match]
+                sc = env.scalar_vars()
+                if not sc:
+                    return
+                nm, tt = r.choice(sc)
+                e = N('var', nm, pid=self.pid(), t=tt)
             self.emit(out, indent, ['switch (', e, ') {'])
             labels = r.sample(range(0, 9), r.randint(1, 3))
             for lb in labels:
@@ -1038,6 +1090,7 @@ class Gen:
         r = self.rng
         env = Env(None)
         self.recent = []
+        self.tainted = set()
         for g, t in self.globals:
             env.add('scalar', g, t)
         for t, n in params:
